@@ -532,7 +532,7 @@ func vCompressGen(r *vRand, tier string, idx int) ([]int64, [][]int64) {
 		for _, setn := range []int64{1, 2, 4, 5} {
 			ops = append(ops, vCompressMkOp(4, 0, 0, 0, scp, 0, setn, 3, 0, 0, 3))
 		}
-	case idx == 11: // clause 8 alone: RPCCompressor + SetSendCompressor(identity), non-empty messages
+	case idx == 11: // clause 8 (repaired defect) alone: RPCCompressor + SetSendCompressor(identity), non-empty messages
 		for _, scp := range []int64{2, 3, 5} {
 			ops = append(ops, vCompressMkOp(0, 0, 0, 0, scp, 0, 1, 5, 5))
 		}
